@@ -91,6 +91,13 @@ def used_fields_check(ctx, ex):
             else:
                 cases.append(([t], "struct X<T: K, U> { #[%s(key = k(&$))] a: Option<T>, b: Option<U> }" % a, {t: ["Option<U>"]}))
                 cases.append(([t], "enum X<T: K, U> { A { #[%s(by = f)] a: Option<T>, b: Option<U> }, B(Vec<T>) }" % a, {t: ["Option<U>", "Vec<T>"]}))
+    for t in R.CMP_TRAITS:
+        a = R.AFFECTS[t][0]
+        cases.append(([t], "struct X<T: K, U, V> { b: Option<U>, #[%s(key = k(&$))] a: Option<T>, c: Box<V> }" % a, {t: ["Option<U>", "Box<V>"]}))
+        cases.append(([t], "struct X<T: K, U, V>(#[%s(key = k(&$))] Option<T>, Option<U>, #[%s(key = k(&$))] Vec<T>, Box<V>);" % (a, a), {t: ["Option<U>", "Box<V>"]}))
+        cases.append(([t], "enum X<T: K, U, V> { A(Option<U>, #[%s(key = k(&$))] Option<T>), B { #[%s(ignore)] a: Vec<T>, b: Box<V>, #[%s(key = k(&$))] c: Vec<T> } }" % (a, a, a), {t: ["Option<U>", "Box<V>"]}))
+    cases.append((["Debug"], "struct X<T, U, V>(Option<U>, #[debug(ignore)] Option<T>, Box<V>, #[debug(ignore)] Vec<T>);", {"Debug": ["Option<U>", "Box<V>"]}))
+    cases.append((["Default"], "struct X<T, U, V> { b: Option<U>, #[default(None)] a: Option<T>, c: Box<V>, #[default(Vec::new())] d: Vec<T> }", {"Default": ["Option<U>", "Box<V>"]}))
     for traits, item, exp in cases:
         r = ex.attr(", ".join(traits), item)
         n += 1
